@@ -6,6 +6,7 @@ P = {'id': 'C19',
               'mv_open_elements',
               'mv_truncated_refused',
               'mv_sync_crash_safe',
+              'replace_crash_safe',
               'mv_set_len_safe',
               'mv_torn_rewrite_v0_refuted'],
  'trusted': ['modelled (M+S): src/memory/mmap_vec.rs MmapVecHeader::validate, open/validate_file_length, len/get, the file image sync() writes and the '
